@@ -314,6 +314,7 @@ func init() {
 				cases = append(cases, gen.ModThrowCase(c.R.Fork()), gen.ModReenterCase(c.R.Fork()), gen.ModReenterCase(c.R.Fork()))
 			}
 			modInvokerScenarios(c)
+			modFileOracle(c)
 			for i := range cases {
 				mc := &cases[i]
 				if mc.Kind != "scope" {
@@ -362,7 +363,6 @@ func init() {
 		},
 	})
 }
-
 
 // modInvokerScenarios: the FIRST import of a module happens inside a function that Go calls back
 // through an Invoker (pooled / unpooled / strings.Map-style); later imports in the main script and
